@@ -55,10 +55,31 @@ def run_generator(schema_path, output, hash_seed='0'):
 			'--quiet', '--generator', 'generator.Generator'], 120, env=env)
 
 
+def run_generator_twice_in_process(schema_path, warmup_output, output, hash_seed):
+	"""ONE interpreter generates the schema twice (state a first generation leaves in the generator's modules must not show in the
+	second); returns (status, output text) of the process; the second generation's module is in `output`."""
+	env = generator_env()
+	env['PYTHONHASHSEED'] = hash_seed
+	script = (
+		'import sys\n'
+		'from catparser.__main__ import main\n'
+		'schema, include, outputs = sys.argv[1], sys.argv[2], sys.argv[3:]\n'
+		'for output in outputs:\n'
+		'\tsys.argv = ["catparser", "--schema", schema, "--include", include, "--output", output, "--quiet", "--generator", "generator.Generator"]\n'
+		'\ttry:\n'
+		'\t\tmain()\n'
+		'\texcept SystemExit as ex:\n'
+		'\t\tif ex.code not in (0, None):\n'
+		'\t\t\traise\n')
+	return common.run(
+		[GENERATOR_PYTHON, '-c', script, str(schema_path), str(schema_path.parent), str(warmup_output), str(output)], 180, env=env)
+
+
 def generate_twice(schema_path, scratch, tag):
-	"""Two independent runs; the second under a different string-hash seed so that an iteration over a set/dict of names would show."""
+	"""Two independent processes; the second under a different string-hash seed (an iteration over a set/dict of names would show) AND
+	generating the schema twice in that one interpreter, its SECOND output being the one compared (state kept between generations)."""
 	first = run_generator(schema_path, scratch / f'out_{tag}_a', '0')
-	second = run_generator(schema_path, scratch / f'out_{tag}_b', '4242')
+	second = run_generator_twice_in_process(schema_path, scratch / f'out_{tag}_warmup', scratch / f'out_{tag}_b', '4242')
 	return first, second
 
 
